@@ -823,6 +823,18 @@ def run_spec_args(res, tier, seed):
 
 
 def run(res, tier, seed):
+    if tier == 'asan':
+        # sanitizer pass: everything that runs in forked children, at the quick sizes (the sanitizer
+        # aborts the child on the first bad access, which progress_forked reports with its input)
+        for name, f in (('selfref', lambda: run_selfref(res)),
+                        ('mutation scripts', lambda: run_mutation_correspondence(res, 'quick')),
+                        ('mutation matrix', lambda: run_wide_matrix(res, 'quick')),
+                        ('treespec arguments', lambda: run_spec_args(res, 'quick', seed)),
+                        ('argument confusion', lambda: run_confusion(res, 'quick', seed))):
+            t0 = time.time()
+            f()
+            res.notes.append(f'section {name}: {time.time() - t0:.1f}s')
+        return
     for name, f in (('depth', lambda: run_depth(res, tier)), ('selfref', lambda: run_selfref(res)),
                     ('mutation scripts', lambda: run_mutation_correspondence(res, tier)),
                     ('mutation matrix', lambda: run_wide_matrix(res, tier)),
